@@ -11,6 +11,8 @@
 //	labels  P<n><p|t> push message n (ordinal in push order; p persistent, t transient)   O pop
 //	        Q<n><p|t> requeue message n   A<n><p|t> ack message n   X purge   L loader turn
 //	        Kp / Kt persist tick of the persistent / transient store
+//	        Li loader turn under the schedule in which the data race on lastIteratedMsgID fires: the transient iteration runs
+//	        after the persistent iteration's last callback and before the persistent goroutine compares the variable
 //	        R<n><p|t> loader turn with the push of message n (flushed at once) landing inside it: after the loader's two
 //	        iterations, before it pushes what it loaded and writes swappedToDisk (the loader holds no lock)
 //	        Z restart: graceful stop at quiescence (both stores write out what is pending), the queue object is dropped,
@@ -65,6 +67,11 @@ type loaderSync struct {
 	active bool
 	pDone  chan struct{}
 	inject func() // run once, on the loader's transient-iteration goroutine, right after that iteration returned
+	// iterRace: the schedule in which the data race on lastIteratedMsgID fires: the transient iteration runs after the
+	// persistent iteration's last callback and before the persistent goroutine's test (label Li)
+	iterRace  bool
+	pIterated chan struct{}
+	tDone     chan struct{}
 }
 
 type memDB struct {
@@ -164,6 +171,32 @@ type orderedDB struct {
 }
 
 func (d *orderedDB) IterateByPrefixFrom(prefix []byte, from []byte, limit uint64, fn func(key []byte, value []byte)) uint64 {
+	s := d.sync
+	s.mu.Lock()
+	race, pIt, tDone := s.active && s.iterRace, s.pIterated, s.tDone
+	s.mu.Unlock()
+	if race {
+		if d.isP {
+			n := d.DbStorage.IterateByPrefixFrom(prefix, from, limit, fn) // all callbacks of the persistent iteration
+			close(pIt)
+			select { // ... then the whole transient iteration, then the persistent goroutine goes on to its test
+			case <-tDone:
+			case <-time.After(500 * time.Millisecond):
+			}
+			return n
+		}
+		select {
+		case <-pIt:
+		case <-time.After(500 * time.Millisecond):
+		}
+		n := d.DbStorage.IterateByPrefixFrom(prefix, from, limit, fn)
+		close(tDone)
+		return n
+	}
+	return d.iterOrdered(prefix, from, limit, fn)
+}
+
+func (d *orderedDB) iterOrdered(prefix []byte, from []byte, limit uint64, fn func(key []byte, value []byte)) uint64 {
 	s := d.sync
 	s.mu.Lock()
 	active, ch := s.active, s.pDone
@@ -450,13 +483,18 @@ func (r *rig) exec(tok string) (label string, out string, err error) {
 		n := r.q.Purge()
 		return "X", "x" + strconv.FormatUint(n, 10), nil
 	case 'L':
+		race := tok == "Li"
 		r.sync.mu.Lock()
 		r.sync.active, r.sync.pDone = true, make(chan struct{})
+		r.sync.iterRace, r.sync.pIterated, r.sync.tDone = race, make(chan struct{}), make(chan struct{})
 		r.sync.mu.Unlock()
 		r.q.VerifLoaderTurn()
 		r.sync.mu.Lock()
-		r.sync.active, r.sync.pDone = false, nil
+		r.sync.active, r.sync.pDone, r.sync.iterRace = false, nil, false
 		r.sync.mu.Unlock()
+		if race {
+			return "Li", "_", nil
+		}
 		return "L", "_", nil
 	case 'R':
 		// loader turn with a push (flushed at once) landing after its iterations, before it writes its results
@@ -645,7 +683,11 @@ func genRandom(r *hx.Rng, n int, durable bool) []string {
 			s = append(s, []string{"Rt", "Rp"}[r.Intn(2)])
 			pushed++
 		case k < pPush+pPop+22:
-			s = append(s, "L")
+			if r.Chance(1, 12) {
+				s = append(s, "Li")
+			} else {
+				s = append(s, "L")
+			}
 		case k < pPush+pPop+28:
 			s = append(s, "Kp")
 		default:
